@@ -93,6 +93,8 @@ pub enum Op {
     Desc(u8),
     /// scan with a fresh iterator (forward + backward)
     Scan,
+    /// close the database while the held iterator is still alive, scan the iterator, drop it, reopen
+    CloseHoldingIter,
 }
 
 impl Op {
@@ -131,6 +133,7 @@ impl Op {
             Op::Get(i) => format!("get {}", esc(&keys[*i as usize])),
             Op::Desc(d) => format!("desc{}", d),
             Op::Scan => "scan".into(),
+            Op::CloseHoldingIter => "close-holding-iterator".into(),
         }
     }
 }
@@ -389,6 +392,7 @@ impl World {
             Op::Iter => self.iter.is_none(),
             Op::DropIter => self.iter.is_some(),
             Op::Reopen(_) => self.snaps.is_empty() && self.iter.is_none(),
+            Op::CloseHoldingIter => self.snaps.is_empty() && self.iter.is_some(),
             _ => true,
         }
     }
@@ -547,6 +551,19 @@ impl World {
             }
             Op::Scan => {
                 self.check_scan(None, &self.model.clone(), "C04.scan")?;
+            }
+            Op::CloseHoldingIter => {
+                // nothing in the API ties the iterator's lifetime to the database handle
+                self.db = None;
+                if let Some((it, frozen)) = self.iter.as_mut() {
+                    let want: Vec<(Vec<u8>, Vec<u8>)> = frozen.iter().map(|(k, v)| (k.clone(), v.clone())).collect();
+                    let got = scan_forward(it).map_err(|e| Violation::new("C03.iter_scan", format!("iterator scan after close failed: {}", e)))?;
+                    if got != want {
+                        return Err(Violation::new("C03.iter_scan", "an iterator outliving its database handle no longer yields its frozen state".into()));
+                    }
+                }
+                self.iter = None;
+                self.open()?;
             }
         }
         if self.eager && !matches!(op, Op::Quiesce) {
